@@ -940,6 +940,21 @@ ELEM_ACCESS = re.compile(r"(std::ops::Index::index|std::ops::IndexMut::index_mut
 NORMALISE_ELEM = True
 
 
+def is_elem_call(f, t):
+    """is this call the fetch of an element of a collection: v[i], v.get(i), ... or `opt.and_then(|i| v.get(i))`?"""
+    c = t.get("callee") or ""
+    if ELEM_ACCESS.search(c):
+        return True
+    if c.endswith("Option::<T>::and_then") and len(t["args"]) == 2:
+        cid = closure_of_origin(f.origin_op(t["args"][1]))
+        g = f.prog.fn(cid) if cid else None
+        if g is not None:
+            o = g.origin_local(0)
+            o = peel(o) if o else o
+            return bool(o and o[0] == "call" and ELEM_ACCESS.search(o[1].get("callee") or ""))
+    return False
+
+
 def stable_origin(f, o, depth=0, _seen=None):
     """like describe_origin, but free of the names of locals and parameters (a renamed variable must not change an
     obligation key): parameters by position, multiply-assigned locals by the set of what is assigned to them, captured
@@ -955,7 +970,7 @@ def stable_origin(f, o, depth=0, _seen=None):
         c = t.get("callee") or ""
         if c in TRANSPARENT_CALLEES and t["args"]:
             return stable_origin(f, f.origin_op(t["args"][0]), depth + 1, _seen)
-        if NORMALISE_ELEM and ELEM_ACCESS.search(c):
+        if NORMALISE_ELEM and is_elem_call(f, t):
             return "elem"          # an element of a collection, however it is fetched (v[i], v.get(i), v.first() ...)
         if NORMALISE_ELEM and c.endswith("Option::<T>::unwrap_or") and len(t["args"]) == 2 and "const" in t["args"][1]:
             # `x.unwrap_or(c)` is `match x { Some(v) => v, None => c }`
@@ -969,7 +984,7 @@ def stable_origin(f, o, depth=0, _seen=None):
     if k == "place":
         projs = o[2]
         base = o[1]
-        if NORMALISE_ELEM and base[0] == "call" and ELEM_ACCESS.search(base[1].get("callee") or "") and projs and isinstance(projs[0], dict) and projs[0].get("downcast") == "Some":
+        if NORMALISE_ELEM and base[0] == "call" and is_elem_call(f, base[1]) and projs and isinstance(projs[0], dict) and projs[0].get("downcast") == "Some":
             # v.get(i) -> Some(elem): skip the downcast and the payload field
             projs = projs[1:]
             if projs and isinstance(projs[0], dict) and projs[0].get("name") == "0":
